@@ -38,17 +38,47 @@ where
     /// This method reuses the existing allocations for the clone. In some cases, this can be more
     /// efficient than calling `clone()` directly.
     fn clone_from(&mut self, source: &Self) {
+        /// Leaves the world without any entities when dropped.
+        ///
+        /// Replacing the stored entities runs the destructors of the current components and the
+        /// `Clone` implementations of the source's components. If one of those panics, the tables
+        /// and the entity allocator no longer describe each other; the entities stored at that
+        /// moment are therefore forgotten (leaked) altogether, rather than left reachable through
+        /// identifiers that resolve to rows which no longer exist.
+        struct ForgetEntitiesOnUnwind<'a, Registry, Resources>(&'a mut World<Registry, Resources>)
+        where
+            Registry: registry::Registry;
+
+        impl<Registry, Resources> Drop for ForgetEntitiesOnUnwind<'_, Registry, Resources>
+        where
+            Registry: registry::Registry,
+        {
+            fn drop(&mut self) {
+                for archetype in self.0.archetypes.iter_mut() {
+                    archetype.forget_rows();
+                }
+                self.0.entity_allocator.slots.clear();
+                self.0.entity_allocator.free.clear();
+                self.0.len = 0;
+            }
+        }
+
+        let guard = ForgetEntitiesOnUnwind(self);
         // SAFETY: `identifier_map` will be outlived by both the current and the source `World`,
         // and therefore will be outlived by the archetypes it references as well.
-        let identifier_map = unsafe { self.archetypes.clone_from(&source.archetypes) };
+        let identifier_map = unsafe { guard.0.archetypes.clone_from(&source.archetypes) };
         // SAFETY: `identifier_map` is guaranteed to contain an entry for every archetype in the
         // world, meaning there will be an entry for every archetype identifier referenced in
         // `self.entity_allocator`.
         unsafe {
-            self.entity_allocator
+            guard
+                .0
+                .entity_allocator
                 .clone_from(&source.entity_allocator, &identifier_map);
         }
-        self.len = source.len;
+        guard.0.len = source.len;
+        // The entities are completely replaced.
+        core::mem::forget(guard);
 
         self.resources.clone_from(&source.resources);
     }
